@@ -180,62 +180,67 @@ def _parse_N_list(out):
     return [int(x) for x in re.split(r'[;\s]+', body) if x.strip()]
 
 
-def run_coq_cases(prop_id, imports, case_type, check_fn, terms, shard=300, timeout=600, tag='cases'):
+def run_coq_cases(prop_id, imports, case_type, check_fn, terms, shard=300, timeout=900, tag='cases'):
     """terms: list of Coq terms of type case_type.  check_fn : case_type -> bool (model output == expected).
-    Returns (mismatch_indices, errors).  The comparison itself is evaluated by vm_compute."""
-    d = BUILD / 'cases' / prop_id
-    d.mkdir(parents=True, exist_ok=True)
-    for old in d.glob(tag + '_*'):
-        old.unlink()
-    shards = [terms[i:i + shard] for i in range(0, len(terms), shard)]
-    files = []
-    for k, sh_terms in enumerate(shards):
-        f = d / ('%s_%d.v' % (tag, k))
-        with open(f, 'w') as fh:
-            fh.write(imports + '\nOpen Scope N_scope.\n')
-            fh.write('Definition cases : list (%s) := [\n' % case_type)
-            fh.write(';\n'.join(sh_terms))
-            fh.write('\n].\n')
-            fh.write('Eval vm_compute in (mismatches (%s) cases).\n' % check_fn)
-        files.append(f)
-    procs = []
-    results = [None] * len(files)
-    errors = []
-    # run with bounded parallelism
-    pending = list(enumerate(files))
-    running = []
-    def start(k, f):
-        return (k, f, subprocess.Popen('ulimit -s unlimited 2>/dev/null; timeout %d coqc %s %s' % (timeout, COQC_FLAGS, f), shell=True,
-                                       cwd=str(d), stdout=subprocess.PIPE, stderr=subprocess.STDOUT, text=True))
-    while pending or running:
-        while pending and len(running) < NPROC:
-            k, f = pending.pop(0)
-            running.append(start(k, f))
-        k, f, p = running.pop(0)
-        out, _ = p.communicate()
-        if p.returncode != 0:
-            errors.append('shard %d (%s): coqc exit %s: %s' % (k, f.name, p.returncode, out[-1500:]))
-            continue
-        lst = _parse_N_list(out)
-        if lst is None:
-            errors.append('shard %d: cannot parse coqc output: %s' % (k, out[-500:]))
-            continue
-        results[k] = lst
-    mism = []
-    for k, lst in enumerate(results):
-        if lst:
-            mism.extend(k * shard + i for i in lst)
-    for f in d.glob(tag + '_*'):
-        if f.suffix != '.v':
-            f.unlink()
-    for f in d.glob('.' + tag + '_*'):
-        f.unlink()
-    return mism, errors
+    Returns (mismatch_indices, errors).  The comparison itself is evaluated by vm_compute.
+    Each invocation works in its own directory (concurrent runs of the same property do not interfere);
+    a shard whose coqc times out or crashes is retried once on its own with a longer limit."""
+    import tempfile, shutil
+    (BUILD / 'cases').mkdir(parents=True, exist_ok=True)
+    d = Path(tempfile.mkdtemp(prefix='%s-%s-' % (prop_id, tag), dir=str(BUILD / 'cases')))
+    try:
+        shards = [terms[i:i + shard] for i in range(0, len(terms), shard)]
+        files = []
+        for k, sh_terms in enumerate(shards):
+            f = d / ('%s_%d.v' % (tag, k))
+            with open(f, 'w') as fh:
+                fh.write(imports + '\nOpen Scope N_scope.\n')
+                fh.write('Definition cases : list (%s) := [\n' % case_type)
+                fh.write(';\n'.join(sh_terms))
+                fh.write('\n].\n')
+                fh.write('Eval vm_compute in (mismatches (%s) cases).\n' % check_fn)
+            files.append(f)
+        results = [None] * len(files)
+        errors = []
+
+        def start(k, f, tmo):
+            return (k, f, subprocess.Popen('ulimit -s unlimited 2>/dev/null; timeout %d coqc %s %s' % (tmo, COQC_FLAGS, f), shell=True,
+                                           cwd=str(d), stdout=subprocess.PIPE, stderr=subprocess.STDOUT, text=True))
+
+        def run_all(todo, tmo, par):
+            failed = []
+            pending = list(todo)
+            running = []
+            while pending or running:
+                while pending and len(running) < par:
+                    k, f = pending.pop(0)
+                    running.append(start(k, f, tmo))
+                k, f, p = running.pop(0)
+                out, _ = p.communicate()
+                lst = _parse_N_list(out) if p.returncode == 0 else None
+                if lst is None:
+                    failed.append((k, f, 'coqc exit %s: %s' % (p.returncode, out[-1500:])))
+                else:
+                    results[k] = lst
+            return failed
+
+        failed = run_all(list(enumerate(files)), timeout, NPROC)
+        if failed:
+            failed = run_all([(k, f) for k, f, _ in failed], timeout * 3, 4)
+        for k, f, msg in failed:
+            errors.append('shard %d (%s): %s' % (k, f.name, msg))
+        mism = []
+        for k, lst in enumerate(results):
+            if lst:
+                mism.extend(k * shard + i for i in lst)
+        return mism, errors
+    finally:
+        shutil.rmtree(d, ignore_errors=True)
 
 
 def coq_eval(prop_id, imports, expr, timeout=300):
     """evaluate one expression in Coq and return the printed text (for replay files)"""
-    d = BUILD / 'cases' / prop_id
+    d = BUILD / 'cases' / ('%s-eval' % prop_id)
     d.mkdir(parents=True, exist_ok=True)
     f = d / ('eval_%d.v' % os.getpid())
     f.write_text(imports + '\nOpen Scope N_scope.\nEval vm_compute in (%s).\n' % expr)
